@@ -36,11 +36,34 @@ def with_patch(patch, reverse, fn):
         subprocess.run(['git', '-C', '/repo', 'checkout', '--', '.'])
 
 
+def only_ids():
+    for a in sys.argv[1:]:
+        if a.startswith('--only='):
+            return set(a[len('--only='):].split(','))
+    return None
+
+
+def patch_results(rows, fixes):
+    """--only=<ids>: replace the named rows of the existing RESULTS.md."""
+    path = os.path.join(VERIF, 'seeded', 'RESULTS.md')
+    new = {r[0]: '| %s | %s | %s |' % r for r in rows + fixes}
+    out = []
+    for line in open(path).read().splitlines():
+        m = re.match(r'\| (\S+) \|', line)
+        out.append(new.pop(m.group(1)) if m and m.group(1) in new else line)
+    if new:
+        sys.exit(f'rows not found in RESULTS.md: {sorted(new)}')
+    open(path, 'w').write('\n'.join(out) + '\n')
+
+
 def main():
     rows = []
+    only = only_ids()
     for d in sorted(glob.glob(os.path.join(VERIF, 'seeded', 'C*'))):
         meta = json.load(open(os.path.join(d, 'meta.json')))
         sid = meta['seed_id']
+        if only is not None and sid not in only:
+            continue
         patch = os.path.join(d, 'patch.adapted.diff')
         if not os.path.exists(patch):
             patch = os.path.join(d, 'patch.diff')
@@ -63,6 +86,8 @@ def main():
         for line in known['fixed']:
             m = re.match(r'fixed: property=(C\d+) (\w+) ', line)
             prop, commit = m.group(1), m.group(2)
+            if only is not None and commit not in only:
+                continue
             patch = os.path.join(VERIF, 'mutants', 'fixes',
                                  commit + '.patch')
             adapted = patch.replace('.patch', '.adapted.patch')
@@ -80,6 +105,9 @@ def main():
                     else f'missed (exit {code})'
             fixes.append((commit, prop, out))
             print(fixes[-1], flush=True)
+    if only is not None:
+        patch_results(rows, fixes)
+        return
     with open(os.path.join(VERIF, 'seeded', 'RESULTS.md'), 'w') as f:
         f.write('# Seeded changes vs. quick checks (tools/run_seeds.py)\n\n'
                 '| seed | property | result |\n|---|---|---|\n')
